@@ -241,6 +241,33 @@ def check_checksum(shape_name, tier, r=None, only=None):
                 out.append({"sig": sig + "/corruption-" + res, "case": case, "detail": "message %s with bit(s) %s flipped raised %s instead of ChecksumError" % (msg.hex(), list(fl), res)})
             elif res.startswith("foreign") or res == "hang":
                 out.append({"sig": sig + "/corruption-" + res, "case": case, "detail": "message %s with bit(s) %s flipped: %s" % (msg.hex(), list(fl), res)})
+        # a digest supplied in the object (e.g. a parsed message that was edited afterwards) must not be trusted:
+        # what build emits always verifies
+        try:
+            stale = dict(v)
+            stale["checksum"] = p["checksum"] if not isinstance(p["checksum"], int) else p["checksum"]
+            wrong = bytes(len(p["checksum"])) if isinstance(p["checksum"], bytes) else (p["checksum"] ^ 1)
+            for label, supplied in (("own", stale["checksum"]), ("wrong", wrong)):
+                vv = dict(v)
+                vv["checksum"] = supplied
+                m2 = d.build(vv)
+                if m2 != msg:
+                    out.append({"sig": sig + "/build-trusts-supplied-digest", "case": case0,
+                                "detail": "build with a %s digest supplied in the object emits %s instead of %s" % (label, m2.hex(), msg.hex())})
+                d.parse(m2)
+            # edit a parsed message and rebuild it
+            edited = d.parse(msg)
+            fv = edited["fields"]["value"]
+            k0 = [k for k in fv if not k.startswith("_")][0]
+            if layout == "fixed" and isinstance(fv[k0], int) and not isinstance(fv[k0], bool):
+                fv[k0] = (fv[k0] + 1) % 200
+                del edited["fields"]["data"]
+                m3 = d.build(edited)
+                d.parse(m3)
+        except C.ChecksumError as e:
+            out.append({"sig": sig + "/rebuilt-message-does-not-verify", "case": case0, "detail": "a message rebuilt from an edited parse result fails its own checksum: %r" % (e,)})
+        except Exception as e:
+            out.append({"sig": sig + "/rebuild-raised-" + type(e).__name__, "case": case0, "detail": repr(e)})
         # building from data instead of value gives the same message
         try:
             v2 = dict(v)
